@@ -36,6 +36,11 @@ TRUSTED = [
     'exp(i angle z)=z/|z|, angle(+0.0)=0, angle(-0.0)=pi; numpy matrix products of the reconstruction oracle',
 ]
 ASSUMPTIONS = [
+    'weak-pairing Bogoliubov inputs (left block with smallest singular value 2e-2 .. 2e-6, exactly ONE pairing rotation, left block '
+    'not exactly singular): reconstruction tolerance 1e-3 instead of 1e-9 - the library prunes quantities below EQ_TOLERANCE = 1e-8 '
+    'and that truncation is amplified by the condition number of the left block (<= 3.7e-6 measured on the unmodified code); a '
+    'skipped particle-hole transformation leaves exact zeros in the diagonal (deviation 1)',
+    'single-precision inputs (float32 / complex64) of the robust stream: tolerance 1e-5',
     'float comparisons use absolute tolerance 1e-9 and only on inputs whose every branch test |x| <> EQ_TOLERANCE is decided '
     'identically by the Model for tolerances 1e-5, 1e-8 and 1e-908 (i.e. every tested entry is exactly zero or >= 1e-5: the '
     'exact-regime hypothesis of the theorems; other inputs are discarded and counted)',
@@ -205,6 +210,13 @@ def rand_unitary(rng, n, kind):
     return U
 
 
+WEAK_K = [2, 3, 5, 6]
+# Reconstruction tolerance for the weak-pairing family.  There the left block has smallest singular value ~ s = 2e-k and
+# the code (legitimately) drops quantities below EQ_TOLERANCE, here the first power of s below 1e-8; that truncation is
+# amplified by ~ 1/s: deviations up to 3.7e-6 were measured on the unmodified code (bound ~ 10 * s^j / s <= 2e-4).  A skipped
+# particle-hole transformation instead leaves exact zeros in the diagonal (deviation 1).
+WEAK_TOL = 1e-3
+
 KINDS = ['perm', 'realperm', 'identity', 'antidiag', 'block', 'realblock', 'dense', 'realdense', 'mixed', 'realmixed']
 
 
@@ -312,7 +324,7 @@ def oracle_givens(of, Qnp, ai):
     return bad, (dec, V, diag), req
 
 
-def oracle_gauss(of, Wnp):
+def oracle_gauss(of, Wnp, tol=TOL):
     n = Wnp.shape[0]
     dec, left_dec, diag, left_diag = of.linalg.fermionic_gaussian_decomposition(Wnp.copy())
     U = np_U_gauss(n, dec)
@@ -324,11 +336,11 @@ def oracle_gauss(of, Wnp):
     e2 = err(np.abs(diag) - 1)
     e3 = err(np.abs(left_diag) - 1)
     e1 = err(V @ Wnp @ U.conj().T - target)
-    if e2 > TOL:
+    if e2 > tol:
         bad = 'diagonal not of unit modulus (%.3g)' % e2
-    elif e3 > TOL:
+    elif e3 > tol:
         bad = 'left diagonal not of unit modulus (%.3g)' % e3
-    elif e1 > TOL:
+    elif e1 > tol:
         bad = 'V W U^dagger != (0 | D) (max deviation %.3g)' % e1
     reqs = [{'op': 'c11.spec.layers', 'n': n, 'depth': 2 * n - 1, 'layers': layer_indices(dec, n)},
             {'op': 'c11.spec.layers', 'n': n, 'depth': max(2 * (n - 1) - 1, 0), 'layers': layer_indices(left_dec, n)}]
@@ -466,7 +478,7 @@ def check_cases(ctx, stream, cases):
                 bad, val, rq = oracle_givens(of, Mnp, c['ai'])
                 specs = [rq]
             else:
-                bad, val, specs = oracle_gauss(of, Mnp)
+                bad, val, specs = oracle_gauss(of, Mnp, WEAK_TOL if c['kind'] == 'weak' else TOL)
             impl_err = None
         except ValueError:
             impl_err = 'ValueError'
@@ -591,6 +603,28 @@ def gen_gauss_exact(rng, n, kind):
         for r in range(n):
             W[r][rng.choice([0, n]) + p[r]] = rng.choice(PHASES)
         return W
+    if kind == 'weak':
+        # weak pairing: orbital rotation, optionally hole modes, then pairing rotations a_i / a_q^dagger of angle
+        # ~ 2 * 10^-k (exact rational rotation with t = tan(theta/2) = 10^-k), k in WEAK_K: the particle-hole pivots of
+        # the decomposition are small but more than a decade above EQ_TOLERANCE (k = 7, 8 would be within a decade of it)
+        for _ in range(rng.randint(0, 3)):
+            i, j = rng.sample(range(n), 2)
+            c, s = rng.choice(CS_DENSE if rng.random() < 0.7 else CS_TRIV)
+            U = zmul(dbl(i, j, c, s, rng.choice(PHASES)), U)
+        for q in range(n):
+            if rng.random() < 0.3:
+                U = zmul(pht(q), U)
+        # exactly ONE pairing rotation: then every quantity the code compares with EQ_TOLERANCE is of order 0 or 1 in s
+        # (>= 1e-7) or exactly zero.  (Two weak pairing rotations create second-order entries s1*s2 <= 4e-10 which the
+        # code legitimately treats as zero; with a nearly singular left block that truncation is amplified to 1e-6..1e-5
+        # in V W U^dagger - observed on the unmodified code, outside the exact regime, therefore not generated.)
+        i, q = rng.sample(range(n), 2)
+        t = F(1, 10 ** rng.choice(WEAK_K))
+        c, s = (1 - t * t) / (1 + t * t), 2 * t / (1 + t * t)
+        if rng.random() < 0.5:
+            s = -s
+        U = zmul(zmul(pht(q), zmul(dbl(i, q, c, s, rng.choice(PHASES)), pht(q))), U)
+        return U[n:] if rng.random() < 0.5 else U[:n]
     steps = rng.randint(0, 6)
     for _ in range(steps):
         if rng.random() < 0.4 or n < 2:
@@ -600,6 +634,157 @@ def gen_gauss_exact(rng, n, kind):
             c, s = rng.choice(CS_DENSE if rng.random() < 0.6 else CS_TRIV)
             U = zmul(dbl(i, j, c, s, rng.choice(PHASES if kind != 'realgroup' else PHASES_REAL)), U)
     return U[n:] if rng.random() < 0.5 else U[:n]
+
+
+# --------------------------------------------------------------------------- (S) / (T) / (B) / (A) robustness
+
+ARRAY_KINDS = ['int64', 'int32', 'float32', 'float64', 'complex64', 'complex128', 'fortran', 'noncontiguous']
+SINGLE_TOL = 1e-5
+
+
+def typed(A, kind):
+    """the same exactly representable values as another array type (None if they do not fit)"""
+    A = np.asarray(A, dtype=complex)
+    if kind in ('int64', 'int32'):
+        if np.abs(A.imag).max() != 0 or np.abs(A.real - np.round(A.real)).max() != 0:
+            return None
+        return A.real.astype(kind)
+    if kind in ('float32', 'float64'):
+        if np.abs(A.imag).max() != 0:
+            return None
+        if kind == 'float32' and np.abs(A.real.astype(np.float32).astype(float) - A.real).max() != 0:
+            return None
+        return A.real.astype(kind)
+    if kind == 'complex64':
+        B = A.astype(np.complex64)
+        return B if np.abs(B.astype(complex) - A).max() == 0 else None
+    if kind == 'complex128':
+        return A.copy()
+    if kind == 'fortran':
+        return np.asfortranarray(A)
+    if kind == 'noncontiguous':
+        big = np.zeros((2 * A.shape[0], 2 * A.shape[1]), dtype=complex)
+        big[::2, ::2] = A
+        return big[::2, ::2]
+    raise AssertionError(kind)
+
+
+def rebuild_error(fn, val, ref):
+    """reconstruction error of a returned decomposition against the float64 reference matrix `ref`"""
+    if fn == 'square':
+        dec, diag = val
+        n = ref.shape[0]
+        return max(err(np.diag(np.asarray(diag, dtype=complex)) @ np_U(n, dec) - ref), err(np.abs(diag) - 1))
+    if fn == 'givens':
+        dec, V, diag = val
+        m, n = ref.shape
+        D = np.zeros((m, n), dtype=complex)
+        D[range(m), range(m)] = diag
+        V = np.asarray(V, dtype=complex)
+        return max(err(V @ ref @ np_U(n, dec).conj().T - D), err(np.abs(diag) - 1), err(V @ V.conj().T - np.eye(m)))
+    dec, left_dec, diag, left_diag = val
+    n = ref.shape[0]
+    U = np_U_gauss(n, dec)
+    V = (np.diag(left_diag) @ np_U(n, left_dec) @ np.diag(diag)).T
+    target = np.zeros((n, 2 * n), dtype=complex)
+    target[range(n), range(n, 2 * n)] = diag
+    return max(err(V @ ref @ U.conj().T - target), err(np.abs(diag) - 1), err(np.abs(left_diag) - 1))
+
+
+def stream_robust(ctx):
+    s = Stream('robust', '(T) exactly representable isometries / Bogoliubov matrices passed as int64, int32, float32, float64, '
+               'complex64, complex128, Fortran-ordered and non-contiguous arrays (types rejected on a probe input are excluded '
+               'for the run): reconstruction oracle against the float64 values; (S) the argument is not modified, results do not '
+               'change when the first result is overwritten and the function is called again; (B) rotations by 2e-6 next to O(1) '
+               'entries; (A) purely imaginary matrices; distinct = distinct (function, matrix, type)')
+    of = ctx.of
+    rng = rng_for(ctx.seed, 'c11-robust')
+    N = budget(ctx.tier, 120, 900)
+    if ctx.drift:
+        N = max(N, 400)
+    fns = {'square': lambda A: of.linalg.givens_decomposition_square(A),
+           'givens': lambda A: of.linalg.givens_decomposition(A),
+           'gauss': lambda A: of.linalg.fermionic_gaussian_decomposition(A)}
+    probes = {'square': np.eye(2), 'givens': np.eye(2)[:1], 'gauss': np.array([[0.0, 1.0]])}
+    acc = {}
+    for fn in fns:
+        acc[fn] = []
+        for k in ARRAY_KINDS:
+            try:
+                fns[fn](typed(probes[fn], k))
+                acc[fn].append(k)
+            except Exception:
+                s.count('type-rejected:%s:%s' % (fn, k))
+    for t in range(N):
+        fn = rng.choice(['square', 'givens', 'givens', 'gauss'])
+        n = rng.choice([2, 3, 3, 4, 5])
+        k = rng.choice(acc[fn]) if acc[fn] else None
+        if k is None:
+            continue
+        if k in ('int64', 'int32', 'float32'):
+            fam = rng.choice(['realperm', 'realperm', 'identity', 'antidiag'])
+        elif k == 'complex64':
+            fam = rng.choice(['realperm', 'perm', 'antidiag'])
+        elif k == 'float64':
+            fam = rng.choice(['realperm', 'realdense', 'realblock', 'tinyrot'])
+        else:
+            fam = rng.choice(['perm', 'realdense', 'realblock', 'dense', 'tinyrot', 'imag', 'identity'])
+        if fn == 'gauss':
+            n = rng.choice([1, 2, 3])
+            W = gen_gauss_exact(rng, n, 'realgroup' if k in ('int64', 'int32', 'float32', 'float64') else
+                                rng.choice(['permlike', 'bcs', 'group', 'realgroup']))
+            if zrank([r[:n] for r in W]) < n:
+                continue        # F11 class: not the subject of this stream
+            A = znp(W, 2 * n)
+            fam = 'bogoliubov'
+        else:
+            if fam == 'tinyrot':
+                U = rand_unitary(rng, n, 'realdense')
+                if n >= 2:
+                    i, j = rng.sample(range(n), 2)
+                    tt = F(1, 10 ** 6)
+                    U = zmul(zrot(n, i, j, (1 - tt * tt) / (1 + tt * tt), 2 * tt / (1 + tt * tt), rng.choice(PHASES_REAL)), U)
+            elif fam == 'imag':
+                U = [[x * Z(0, 1) for x in r] for r in rand_unitary(rng, n, 'realdense')]
+            else:
+                U = rand_unitary(rng, n, fam)
+            m = n if fn == 'square' else rng.randint(1, n)
+            A = znp(U[:m], n)
+        At = typed(A, k)
+        if At is None:
+            s.count('values-do-not-fit-type')
+            continue
+        c = {'fn': fn, 'family': fam, 'type': k, 'matrix': [[[x.real, x.imag] for x in r] for r in A]}
+        s.case(c)
+        s.count('fn:' + fn)
+        s.count('type:' + k)
+        s.count('family:' + fam)
+        A0 = At.copy()
+        tol = SINGLE_TOL if k in ('float32', 'complex64') else TOL
+        try:
+            val = fns[fn](At)
+        except Exception as e:
+            s.violate('%s(%s array) raised %s: %s' % (fn, k, type(e).__name__, e), c, {})
+            continue
+        s.float_comparisons += 3
+        e = rebuild_error(fn, val, np.asarray(A, dtype=complex))
+        if e > tol:
+            s.violate('%s(%s array): the returned decomposition does not reconstruct the input (max deviation %.3g)'
+                      % (fn, k, e), c, {'returned': impl_summary(val)})
+        if not np.array_equal(At, A0) or At.dtype != A0.dtype:
+            s.violate('%s modified its argument' % fn, c, {})
+        # (S) overwrite the returned arrays, call again
+        first = impl_summary(val)
+        try:
+            for x in val:
+                if isinstance(x, np.ndarray) and x.flags.writeable and not np.shares_memory(x, At):
+                    x[...] = 5
+            again = impl_summary(fns[fn](At))
+            if again != first:
+                s.violate('%s returns a different decomposition after its first result was overwritten in place' % fn, c, {})
+        except Exception as e:
+            s.violate('%s: second call raised %s: %s' % (fn, type(e).__name__, e), c, {})
+    return s
 
 
 # --------------------------------------------------------------------------- streams
@@ -653,9 +838,9 @@ def stream_schedule(ctx):
             s.disagree('schedule (index pairs per layer)', case, impl, model)
         for rq in rqs:
             add_spec(s, spec_batch, case, rq)
-    for n in range(1, nmax + 1):
+    for n in list(range(1, nmax + 1)) + [17]:
         one('square', n, n)
-        for m in range(1, n + 1):
+        for m in (range(1, n + 1) if n <= nmax else (1, 8, 16, 17)):
             one('givens', m, n)
         one('gauss', n, 2 * n)
     answers = dr.run([r for _, r, _ in spec_batch])
@@ -797,8 +982,16 @@ def stream_structured(ctx):
     cases.append({'fn': 'givens', 'M': [[ONE], [ONE]], 'ncols': 1, 'ai': False, 'kind': 'm>n', 'admissible': False})
     for _ in range(nga):
         n = rng.choice([1, 2, 2, 3, 3, 3, 4, 4])
-        kind = rng.choice(['bcs', 'permlike', 'group', 'group', 'realgroup'])
+        kind = rng.choice(['bcs', 'permlike', 'group', 'group', 'realgroup', 'weak', 'weak'])
+        if kind == 'weak' and n < 2:
+            n = rng.choice([2, 3, 4])
         W = gen_gauss_exact(rng, n, kind)
+        if kind == 'weak':
+            # weak-pairing inputs must lie OUTSIDE the F11 class: the left block is nearly, but not exactly, singular
+            for _try in range(30):
+                if zrank([r[:n] for r in W]) == n:
+                    break
+                W = gen_gauss_exact(rng, n, kind)
         cases.append({'fn': 'gauss', 'M': W, 'ncols': 2 * n, 'ai': False, 'kind': kind,
                       'singular': zrank([r[:n] for r in W]) < n})
     # inadmissible inputs: error kind only
@@ -863,11 +1056,11 @@ def replay(ctx, payload):
         elif inp['fn'] == 'givens':
             bad, _, _ = oracle_givens(ctx.of, M, inp.get('always_insert', False))
         else:
-            bad, _, _ = oracle_gauss(ctx.of, M)
+            bad, _, _ = oracle_gauss(ctx.of, M, WEAK_TOL if inp.get('kind') == 'weak' else TOL)
     except Exception:
         return False
     return bad is None
 
 
 def run(ctx):
-    return [stream_schedule(ctx), stream_elements(ctx), stream_structured(ctx)]
+    return [stream_schedule(ctx), stream_elements(ctx), stream_structured(ctx), stream_robust(ctx)]
